@@ -19,7 +19,7 @@ def cG : TT Nat Unit := ⟨cn 0, [(cn 0, [(cOne, ([], ())), (cPlus, ([(cInt, 1),
 def cW : AList (NT Nat Unit) (AList Sym Int) := [(cn 0, [(cOne, 1), (cPlus, 2)]), (cn 1, [(cOne, 1), (cX, 2)])]
 def cE : Env Nat := { G := cG, W := cW, progs0 := 5 }
 
-/-- the chain grammar of finding C02-F4: `b -> g a`, `a -> h c`, `c -> k`, every rule of probability 1 = cost 0 -/
+/-- the chain grammar of finding C02-F6: `b -> g a`, `a -> h c`, `c -> k`, every rule of probability 1 = cost 0 -/
 def fT (n : String) : Ty := .base n
 def fG : TT Nat Unit := ⟨(fT "b", (0, ())), [((fT "b", (0, ())), [(Sym.prim "g" .unknown, ([(fT "a", 1)], ()))]),
                                              ((fT "a", (1, ())), [(Sym.prim "h" .unknown, ([(fT "c", 2)], ()))]),
@@ -79,12 +79,12 @@ example : ((Gen.new cE).bind fun g => runActs cE 1000 [.take 3, .merge (.node cO
     (fun r => r.2.length) = some 4 := by
   decide +kernel
 
-/-! ### finding C02-F4: a rule with arguments of cost 0 loses programs -/
+/-! ### finding C02-F6: a rule with arguments of cost 0 loses programs -/
 
 /-- on the chain grammar `b -> g a, a -> h c, c -> k` with every rule of probability 1 (integer cost 0) the
     machine — like `list(enumerate_prob_grammar(ProbDetGrammar.uniform(cfg)))` — stops without yielding the
     only program `(g (h k))` of the language -/
-theorem finding_C02_F4 :
+theorem finding_C02_F6 :
     ((Gen.new fE).bind fun g => take fE 1000 5 g []).map (fun r => (r.2.1, r.2.2)) = some ([], true) ∧
     gen fG fProg fG.start = true ∧ posArgCosts fE = false := by
   decide +kernel
